@@ -3,7 +3,7 @@
    string[], iterator addition, float -> int conversion, int addition and allocation size is explicit; what C++ leaves
    undefined is the outcome UB, an exception that would leave the operator is Throw.  Definitions only.
 
-   A guard model is written for exactly these operators / helpers and no others:
+   A guard model is written for exactly these operators / helpers (a second list is in Ops/Guards2.v) and no others:
      select (ARRAY,SCALAR) (ARRAY,BOOL) (ARRAY,ARRAY) (STRING,ARRAY), resize, deleteRange, deleteAt, set,
      pushBack, pushBackUnique, append, sort, param, params, format, toArray, toString, splitString,
      selectMax, selectMin, selectRandom, toFixed (unary, binary), the configClasses / configProperties iterator,
